@@ -933,11 +933,19 @@ func TagString(tags map[string]string) string {
 // TypedSlice builds a slice value of type st from a list Val whose leaves are
 // convertible to the element type.
 func TypedSlice(st reflect.Type, v Val) any {
-	out := reflect.MakeSlice(st, len(v.L), len(v.L))
+	out := reflect.MakeSlice(st, len(v.L), len(v.L)+emptyCap(len(v.L)))
 	for i, e := range v.L {
 		SetFromVal(out.Index(i), e)
 	}
 	return out.Interface()
+}
+
+// emptyCap: empty typed slices are made with spare capacity (make([]T, 0, 3), buf[:0]): an empty slice may still own memory.
+func emptyCap(n int) int {
+	if n == 0 {
+		return 3
+	}
+	return 0
 }
 
 // SetFromVal stores a typed Val into an addressable destination value,
@@ -958,7 +966,7 @@ func SetFromVal(dst reflect.Value, v Val) {
 		}
 		dst.Set(p)
 	case reflect.Slice:
-		s := reflect.MakeSlice(dst.Type(), len(v.L), len(v.L))
+		s := reflect.MakeSlice(dst.Type(), len(v.L), len(v.L)+emptyCap(len(v.L)))
 		for i, e := range v.L {
 			SetFromVal(s.Index(i), e)
 		}
